@@ -20,6 +20,9 @@ long long ofv_get(const char *name);
 extern int ofv_failed;
 #define IN(type, var)            ((var) = (type)ofv_get(#var))
 #define IN_MEM(type, var, lval)  ((lval) = (type)((var) = (type)ofv_get(#var)))
+long long ofv_get_i(const char *name, long i);
+#define IN_MEM_I(type, arr, i, lval) ((lval) = (type)((arr)[i] = (type)ofv_get_i(#arr, (long)(i))))
+#define IN_I(type, arr, i)       ((arr)[i] = (type)ofv_get_i(#arr, (long)(i)))
 #define REQUIRES(c)      do { if (!(c)) { printf("REPLAY-PRECONDITION-NOT-MET %s\n", #c); exit(3); } } while (0)
 #define ENSURES(c, name) do { if (!(c)) { printf("REPLAY-FAIL %s\n", name); ofv_failed = 1; } } while (0)
 #define REACHED(tag)     do { printf("REPLAY-REACHED %s\n", tag); } while (0)
@@ -29,6 +32,8 @@ void *ofv_exact_alloc(size_t n);
 #else
 #define IN(type, var)            do { type ofv_nd_##var; (var) = ofv_nd_##var; } while (0)
 #define IN_MEM(type, var, lval)  ((var) = (type)(lval))
+#define IN_MEM_I(type, arr, i, lval) ((arr)[i] = (type)(lval))
+#define IN_I(type, arr, i)       do { type ofv_nd_i; (arr)[i] = ofv_nd_i; } while (0)
 #define REQUIRES(c)      __CPROVER_assume(c)
 #define ENSURES(c, name) __CPROVER_assert(c, name)
 /* vacuity canary: must be reported FAILURE by cbmc, i.e. this point is reachable under the precondition */
